@@ -169,7 +169,9 @@ def dense_chain(psi, phys=None):
                     cur = np.tensordot(cur, nxt, axes=(cur.ndim - 1, 0))
                 cur = np.tensordot(cur, last, axes=(cur.ndim - 1, 0))
         cur = np.tensordot(cur, CdN, axes=(cur.ndim - 1, 0))
-    # first and last virtual legs have dimension one
+    # first and last virtual legs have dimension one (zero: a site tensor without blocks, the represented object is zero)
+    if cur.shape[0] == 0 or cur.shape[-1] == 0:
+        return np.zeros(cur.shape[1:-1], dtype=cur.dtype) if cur.dtype != object else objarray([0] * int(np.prod(cur.shape[1:-1]))).reshape(cur.shape[1:-1])
     assert cur.shape[0] == 1 and cur.shape[-1] == 1, cur.shape
     cur = cur.reshape(cur.shape[1:-1])
     return cur * psi.factor
